@@ -3013,3 +3013,123 @@ PROPS["C04"] = {
     "explanation": "theorems (Props/C04.lean): master_write_parse (for EVERY value the parser can produce, the parser's state machine run on the writer's typed lines gives back exactly that value: the five lists in order, both flags, unknown tags; uses only that the value passed validation), master_roundtrip (text level through to_string / try_from, given each written line's text classifies back to the line: LineRT, via lineItems_renderLines and the line-splitter lemmas), master_fixed_point. LineRT per tag: see Props/C04 status in DESIGN.md (type-level round trips are C18's theorems). Tie: status, observation, A, R and F fields must agree between library and model; oracle on the library: R:= (second observation byte-identical) and F:1 (second text byte-identical).",
     "assumptions": ["frame rates with more than 3 fractional digits are outside the property's domain (the writer emits 3 decimals)"],
 }
+
+
+# ------------------------------------------------------------------------------------------
+# C03 — media playlist: serialise -> parse
+
+C03_KEYATTR = ["", ",IV=0x000102030405060708090A0B0C0D0E0F", ',KEYFORMATVERSIONS="1/2"', ',KEYFORMATVERSIONS="1"']
+
+
+def c03_render(rng, seq):
+    """C06 event sequences with richer lines: IV / versions on keys, byte ranges, titles, date ranges"""
+    lines = ["#EXTM3U", "#EXT-X-TARGETDURATION:10"]
+    if rng.random() < 0.3: lines.append("#EXT-X-MEDIA-SEQUENCE:%d" % rng.choice([1, 7, 2**32]))
+    ns = 0
+    for ev in seq:
+        if ev[0] == "K":
+            l = '#EXT-X-KEY:METHOD=%s,URI="%s"' % (rng.choice(["AES-128", "AES-128", "SAMPLE-AES"]), ev[2])
+            if C06_FMT[ev[1]] is not None:
+                l += ',KEYFORMAT="%s"' % C06_FMT[ev[1]]
+            l += rng.choice(C03_KEYATTR) if rng.random() < 0.3 else ""
+            lines.append(l)
+        elif ev[0] == "N":
+            lines.append("#EXT-X-KEY:METHOD=NONE")
+        elif ev[0] == "M":
+            lines.append('#EXT-X-MAP:URI="init%d"%s' % (ns, rng.choice(["", ',BYTERANGE="10@0"', ',BYTERANGE="10"'])))
+        else:
+            if rng.random() < 0.2: lines.append("#EXT-X-DISCONTINUITY")
+            lines += ["#EXTINF:%s,%s" % (rng.choice(["1", "2.5", "9.999999999", "0.000000001"]), rng.choice(["", "", "t, x"])), "s%d" % ns]
+            ns += 1
+    return "\n".join(lines) + "\n"
+
+
+def c03_flags(obs):
+    """which recorded round-trip findings the ORIGINAL parse exhibits (computed from the implementation's observation)"""
+    m = Media(obs)
+    norm = lambda k: re.sub(r"ivN\d+", "ivM", str(k))
+    k2 = k3 = False
+    prev = None
+    for s in m.segments:
+        cur = [norm(k) for k in s.keys]
+        if s.map is not None and [norm(k) for k in s.map[2].items] != cur:
+            k2 = True
+        fm = lambda ks: {key_ident(k)[1] for k in ks if k != "K0"}
+        if prev is not None and [str(k) for k in s.keys] != ["K0"] and not fm(prev) <= fm(s.keys):
+            k3 = True
+        prev = s.keys
+    k4 = bool(re.search(r";v\[1?\]\}", obs))
+    return k2, k3, k4
+
+
+def c03_build(ctx):
+    rng = ctx.rng
+    cases = []
+    for t in corpus_texts():
+        if "#EXTINF" in t or "TARGETDURATION" in t:
+            cases.append(mk("rt_media", t, group="corpus"))
+    maxlen = ctx.n(4, 5)
+    for n in range(1, maxlen + 1):
+        for seq in itertools.product(C06_ALPHA, repeat=n):
+            if seq[-1] == ("S",):
+                cases.append(mk("rt_media", c06_render(seq), group="key-histories<=%d" % maxlen, meta={"seq": True}))
+    for _ in range(ctx.n(2500, 50000)):
+        n = rng.randint(2, 40)
+        seq = tuple(rng.choice(C06_ALPHA) if rng.random() < 0.6 else ("S",) for _ in range(n)) + (("S",),)
+        cases.append(mk("rt_media", c03_render(rng, seq), group="key-histories-long", meta={"seq": True}))
+    for _ in range(ctx.n(2500, 50000)):
+        cases.append(mk("rt_media", G.gen_media(rng, features=ctx.features)[0], group="generated"))
+    for _ in range(ctx.n(800, 16000)):
+        cases.append(mk("rt_media", G.gen_media(rng, key_weight=0.6, max_segments=12, features=ctx.features)[0], group="generated-many-keys"))
+    for _ in range(ctx.n(500, 10000)):
+        lay = G.Layout(rng)
+        cases.append(mk("tag:ExtXDateRange", G.gen_daterange(rng, lay), group="tag"))
+        cases.append(mk("tag:ExtXKey", "#EXT-X-KEY:" + lay.attrs(G.gen_key(rng)), group="tag"))
+        cases.append(mk("tag:ExtInf", "#EXTINF:%s,%s" % (G.dec_seconds(rng, 10**6 - 1), rng.choice(["", "t", "a, b"])), group="tag"))
+        cases.append(mk("tag:ExtXMap", '#EXT-X-MAP:URI="%s"%s' % (G.qs(rng), rng.choice(["", ',BYTERANGE="%d@%d"' % (G.rint(rng, 2**40), G.rint(rng, 2**40)), ',BYTERANGE="%d"' % G.rint(rng)])), group="tag"))
+    return cases
+
+
+def c03_oracle(ctx, cases, impl, model):
+    fails = []
+    for c, a in zip(cases, impl):
+        r = C.Resp(a)
+        if r.status == "panic":
+            fails.append(dict(describe(c.line, a), what="panicked", law="no-panic")); continue
+        if r.status != "ok":
+            continue
+        rr = r.get("R")
+        if c.op != "rt_media":
+            if rr != "=":
+                k4 = 'KEYFORMATVERSIONS="1"' in c.payload.replace(" ", "")
+                fails.append(dict(describe(c.line, a), what="%s: parsing the written tag gives %s" % (c.op, "an error" if rr == "err" else "a different value"), law="round-trip",
+                                  default_versions_dropped=k4))
+            continue
+        if rr == "=" and r.get("F") == "1":
+            continue
+        k2, k3, k4 = c03_flags(r.obs)
+        what = ("parsing the written text gives %s instead of the original content" % ("an error" if rr in ("err", "panic") else "a different value")) if rr != "=" else \
+            "the text written from the re-parsed value differs from the first text"
+        fails.append(dict(describe(c.line, a), what=what, law="round-trip" if rr != "=" else "fixed-point", written=C.unhx(r.get("T", ""))[:3000],
+                          key_between_map_and_uri=k2, reset_then_fewer_formats=k3, default_versions_dropped=k4))
+    return fails
+
+
+@classifier("K2-key-between-map-and-uri")
+def _k2(f):
+    return f.get("key_between_map_and_uri") is True
+
+
+@classifier("K3-reset-then-fewer-formats")
+def _k3(f):
+    return f.get("reset_then_fewer_formats") is True
+
+
+PROPS["C03"] = {
+    "build": c03_build, "gate": {"status", "obs", "D", "R", "F"}, "oracle": c03_oracle,
+    "nontrivial": lambda c, a: a.startswith("ok") and "#EXT-X-KEY" in c.payload,
+    "rule": "repository media fixtures; EVERY key/map/segment event sequence over the 11-letter alphabet of C06 (4 key formats x 2 payloads, METHOD=NONE, EXT-X-MAP, segment) up to the length bound; long random histories with IV / KEYFORMATVERSIONS attributes, byte ranges and titles; generated playlists with all 17 tags; each through try_from -> to_string -> try_from -> to_string; plus DATERANGE / KEY / EXTINF / MAP tags on their own; non-trivial = accepted text with at least one EXT-X-KEY",
+    "exhaustive": True,
+    "explanation": "see DESIGN.md section 7 (C03) for the theorem status; tie: status, observation, D, R and F must agree between library and model (the model's writer and parser embody the recorded findings exactly, so a new defect shows as a disagreement even where an oracle failure is classified as known); oracle on the library: R:= and F:1",
+    "assumptions": ["exhaustive = all event sequences up to the stated length over the stated alphabet (not all texts)"],
+}
